@@ -22,3 +22,11 @@ Theorem c17_no_panic_known_kinds : forall e, known_env e -> forall progs, wf_pro
   chk_no_panic (c_trace (exec e (init progs) sched)) = true.
 Proof. exact known_C17_no_panic. Qed.
 Print Assumptions c17_no_panic_known_kinds.
+
+From OCI.proofs Require Import IterBase ChkIter IterRunC16.
+Theorem c17_no_panic_wrapped_iterator : forall e, iter_env e -> e_crash e = None -> forall progs, wf_progs progs -> plain_progs progs ->
+  (forall t, Forall op_nz (progs t)) -> forall sched,
+  nowrap (c_labels (exec e (init progs) sched)) ->
+  chk_no_panic (c_trace (exec e (init progs) sched)) = true.
+Proof. exact iter_C17_no_panic. Qed.
+Print Assumptions c17_no_panic_wrapped_iterator.
